@@ -206,6 +206,17 @@ func (s *retryNet) RoundTrip(req *http.Request) (*http.Response, error) {
 	rest := content
 	if c.Cut >= 0 && c.Cut < len(rest) {
 		rest = rest[:c.Cut]
+		if c.End == "c" {
+			// a stream that stops early and still ends cleanly: a close-delimited body (no Content-Length)
+			// whose connection went away, or — every second time — a server that by now holds a shorter
+			// file and says so.  The reader under test looks at neither.
+			if s.altFault {
+				resp.ContentLength = -1
+				resp.Close = true
+			} else {
+				resp.ContentLength = int64(len(rest))
+			}
+		}
 	}
 	resp.Body = &retryBody{net: s, rest: append([]byte(nil), rest...), end: c.End, chunks: append([]int(nil), c.Chunks...), eager: c.Eager}
 	return resp, nil
